@@ -20,7 +20,7 @@ type mutation struct {
 	group string // http | json | signed | bytes
 }
 
-var statusPool = []int{500, 201, 204, 206, 300, 400, 403, 404, 408, 429, 503, 502}
+var statusPool = []int{500, 201, 204, 206, 300, 400, 403, 404, 408, 429, 503, 502, 199, 202, 299, 304}
 
 // fieldKind classifies the JSON fields of the RFC 6962 responses the client consumes.
 var fieldKind = map[string]string{
@@ -58,16 +58,18 @@ func (w *c12World) candidates(op *c12Op, c *rtCall, h *hon) ([]mutation, []int) 
 			ms = append(ms, mutation{n, group})
 		}
 	}
-	add("http", "status", "header", "net.cut", "net.err", "redirect")
+	add("http", "status", "header", "net.cut", "net.err", "redirect", "net.closeerr")
 	if h.status == 200 {
 		add("http", "trunc", "trail")
 		add("json", "jsontype", "jsonnull", "missing", "whole")
 		switch h.ep {
 		case "get-sth":
-			add("signed", "sth.root.len", "sth.root.flip", "sth.ts+1", "sth.size+1", "sth.sig.foreign", "sth.sig.foreign-kind", "sth.sig.flip", "sth.sig.as-sct",
+			add("signed", "sth.sig.althash", "sth.sig.inner-trailing", "sth.resigned.extreme", "sth.sig.othershard",
+				"sth.root.len", "sth.root.flip", "sth.ts+1", "sth.size+1", "sth.sig.foreign", "sth.sig.foreign-kind", "sth.sig.flip", "sth.sig.as-sct",
 				"sth.ds.trailing", "sth.ds.trunc", "sth.ds.hashalg", "sth.ds.sigalg", "sth.ds.lenprefix", "sth.ds.empty")
 		case "add-chain", "add-pre-chain":
-			add("signed", "sct.id.random", "sct.id.otherkey", "sct.id.short", "sct.id.long", "sct.id.empty", "sct.ts+1",
+			add("signed", "sct.sig.althash", "sct.sig.inner-trailing", "sct.resigned.extreme", "sct.sig.othershard", "sct.ext.max", "sct.ext.over",
+				"sct.id.random", "sct.id.otherkey", "sct.id.short", "sct.id.long", "sct.id.empty", "sct.ts+1",
 				"sct.sig.foreign", "sct.sig.foreign-kind", "sct.sig.flip", "sct.sig.as-sth", "sct.sig.other-ts", "sct.sig.other-chain", "sct.sig.other-type",
 				"sct.ds.trailing", "sct.ds.trunc", "sct.ds.hashalg", "sct.ds.sigalg", "sct.ds.lenprefix", "sct.ds.empty",
 				"sct.version", "sct.ext.badb64", "sct.ext.unsigned", "sct.ext.signed")
@@ -163,9 +165,25 @@ func (w *c12World) mutate(op *c12Op, c *rtCall, h *hon) *served {
 	}
 	raw := []byte(nil) // set when the body is not the marshalled obj
 	fail := func() { o.Expect = expectFail }
-	key := w.logKey
+	key := w.keyFor(c.Path)
+	logID := sha256.Sum256(key.SPKI)
+	otherShard := w.shardKey
+	if key == w.shardKey {
+		otherShard = w.logKey
+	}
+	// innerTrailing appends bytes INSIDE the opaque signature of a DigitallySigned (length prefix adjusted)
+	innerTrailing := func(ds []byte) []byte {
+		sig := append(append([]byte{}, ds[4:]...), [][]byte{{0}, {0, 0}, {0x30, 0}}[t.Intn(3)]...)
+		return dsBytes(ds[0], ds[1], sig)
+	}
+	altHash := []int{1, 2, 3, 5, 6}[t.Intn(5)]
+	extreme := []uint64{0, ^uint64(0), 1 << 63, 1<<63 - 1}[t.Intn(4)]
 
 	switch m.name {
+	case "net.closeerr":
+		// the whole correct body arrives; closing it then fails
+		o.CloseErr = true
+		raw = h.body()
 	// ---- transport / HTTP level ----
 	case "status":
 		o.Status = statusPool[t.Intn(len(statusPool))]
@@ -253,6 +271,26 @@ func (w *c12World) mutate(op *c12Op, c *rtCall, h *hon) *served {
 	case "sth.size+1":
 		obj["tree_size"] = h.sthSize + 1
 		fail()
+	case "sth.sig.althash":
+		// a signature of the right key over the right input with another hash: RFC 6962 asks for SHA-256,
+		// the statement only for "verifies under that key" - either outcome, and an accepted one is verified
+		obj["tree_head_signature"] = b64(signDSHash(key, oracle.STHSignatureInput(h.sthTS, h.sthSize, h.sthRoot), altHash))
+		o.Kind = fmt.Sprintf("sth.sig.althash.%d", altHash)
+	case "sth.sig.inner-trailing":
+		ds, _ := decodeB64(obj["tree_head_signature"].(string))
+		obj["tree_head_signature"] = b64(innerTrailing(ds))
+		fail() // over-long: bytes after the signature value
+	case "sth.resigned.extreme":
+		ts, size := h.sthTS, h.sthSize
+		if t.Chance(1, 2) {
+			ts = extreme
+		} else {
+			size = extreme
+		}
+		obj = w.sthObj(key, ts, size, h.sthRoot) // correctly signed, extreme numbers
+	case "sth.sig.othershard":
+		obj = w.sthObj(otherShard, h.sthTS, h.sthSize, h.sthRoot)
+		fail()
 	case "sth.sig.foreign":
 		obj = w.sthObj(foreignKey(key.Kind), h.sthTS, h.sthSize, h.sthRoot)
 		fail()
@@ -273,15 +311,34 @@ func (w *c12World) mutate(op *c12Op, c *rtCall, h *hon) *served {
 		fail()
 
 	// ---- signed certificate timestamp ----
+	case "sct.sig.althash":
+		obj["signature"] = b64(signDSHash(key, oracle.SCTSignatureInput(h.sctTS, h.sub.entry, nil), altHash))
+		o.Kind = fmt.Sprintf("sct.sig.althash.%d", altHash)
+	case "sct.sig.inner-trailing":
+		ds, _ := decodeB64(obj["signature"].(string))
+		obj["signature"] = b64(innerTrailing(ds))
+		fail()
+	case "sct.resigned.extreme":
+		obj = sctObj(key, extreme, h.sub.entry, nil) // correctly signed, extreme timestamp
+	case "sct.sig.othershard":
+		obj["signature"] = b64(signDS(otherShard, oracle.SCTSignatureInput(h.sctTS, h.sub.entry, nil)))
+		fail()
+	case "sct.ext.max":
+		obj = sctObj(key, h.sctTS, h.sub.entry, make([]byte, 65535)) // the largest CtExtensions there is, correctly signed
+	case "sct.ext.over":
+		ext := make([]byte, 65536) // one more than opaque<0..2^16-1> can hold: nothing can be signed over it
+		obj = sctObj(key, h.sctTS, h.sub.entry, ext[:65535])
+		obj["extensions"] = b64(ext)
+		fail()
 	case "sct.id.random":
 		obj["id"] = b64(sha([]byte("some other log")))
 	case "sct.id.otherkey":
 		id := sha256.Sum256(foreignKey(key.Kind).SPKI)
 		obj["id"] = b64(id[:])
 	case "sct.id.short":
-		obj["id"] = b64(w.logID[:31]) // judged by the log-id clause: whatever comes back must carry the right id
+		obj["id"] = b64(logID[:[]int{31, 1, 16}[t.Intn(3)]]) // judged by the log-id clause: whatever comes back must carry the right id
 	case "sct.id.long":
-		obj["id"] = b64(append(append([]byte{}, w.logID[:]...), 0x5a))
+		obj["id"] = b64(append(append([]byte{}, logID[:]...), [][]byte{{0x5a}, logID[:]}[t.Intn(2)]...))
 		fail()
 	case "sct.id.empty":
 		obj["id"] = ""
@@ -474,5 +531,80 @@ func (w *c12World) mutBytes(b []byte, isLeaf bool) ([]byte, string) {
 		v := [][]byte{{0, 0}, {0, 1}, {0x80, 0}, {0, 2}, {0xff, 0xff}}[t.Intn(5)]
 		out[10], out[11] = v[0], v[1]
 		return out, "entrytype"
+	}
+}
+
+// edgeEntry builds leaf_input / extra_data on the edges of the TLS structures (RFC 6962 §3.4, §4.6):
+// zero-length and maximal vectors, unknown enum values, the other entry type's extra data.
+func (w *c12World) edgeEntry(e *refEntry) (leaf, extra []byte, note string) {
+	t := w.s.T
+	leaf, extra = append([]byte{}, e.leaf...), append([]byte{}, e.extra...)
+	ent := e.sub.entry
+	u24 := func(n int) []byte { return []byte{byte(n >> 16), byte(n >> 8), byte(n)} }
+	switch t.Intn(14) {
+	case 0: // ASN.1Cert<1..2^24-1> / TBSCertificate<1..2^24-1> of length 0
+		if ent.Type == oracle.X509Entry {
+			ent.Cert = nil
+		} else {
+			ent.TBS = nil
+		}
+		return oracle.MerkleTreeLeaf(e.ts, ent, nil), extra, "edge:empty-signed-entry "
+	case 1:
+		return oracle.MerkleTreeLeaf(e.ts, ent, []byte{0x5a}), extra, "edge:extensions-1 "
+	case 2:
+		return oracle.MerkleTreeLeaf(e.ts, ent, make([]byte, 65535)), extra, "edge:extensions-65535 "
+	case 3:
+		return oracle.MerkleTreeLeaf(0, ent, nil), extra, "edge:timestamp-0 "
+	case 4:
+		return oracle.MerkleTreeLeaf(^uint64(0), ent, nil), extra, "edge:timestamp-max "
+	case 5: // certificate_chain<0..2^24-1> with no certificate at all
+		if e.sub.isPre {
+			return leaf, oracle.PrecertExtraData(e.sub.leaf.DER, nil), "edge:empty-chain "
+		}
+		return leaf, oracle.X509ExtraData(nil), "edge:empty-chain "
+	case 6: // a chain holding one zero-length certificate
+		body := u24(0)
+		x := append(u24(len(body)), body...)
+		if e.sub.isPre {
+			x = append(append(u24(len(e.sub.leaf.DER)), e.sub.leaf.DER...), x...)
+		}
+		return leaf, x, "edge:empty-cert-in-chain "
+	case 7: // PrecertChainEntry with a zero-length pre_certificate
+		return leaf, append(u24(0), oracle.X509ExtraData(e.sub.issuerDERs())...), "edge:empty-precert "
+	case 8: // 1 or 2 stray bytes inside the chain vector
+		chainAt := 0
+		if e.sub.isPre {
+			chainAt = 3 + len(e.sub.leaf.DER)
+		}
+		k := 1 + t.Intn(2)
+		n := int(extra[chainAt])<<16 | int(extra[chainAt+1])<<8 | int(extra[chainAt+2])
+		copy(extra[chainAt:], u24(n+k))
+		return leaf, append(extra, make([]byte, k)...), "edge:stray-bytes-in-chain "
+	case 9: // the other entry type's extra data
+		for _, o := range w.log.entries {
+			if o.sub.isPre != e.sub.isPre {
+				return leaf, append([]byte{}, o.extra...), "edge:other-type-extra "
+			}
+		}
+		return leaf, nil, "edge:no-extra "
+	case 10: // entry types next to the defined ones and the JSON one of this code base
+		v := [][]byte{{0, 2}, {0x7f, 0xff}, {0x80, 0x00}, {0x80, 0x01}, {0xff, 0xff}}[t.Intn(5)]
+		leaf[10], leaf[11] = v[0], v[1]
+		if v[0] == 0x80 && v[1] == 0 {
+			data := []byte(`{"a":1}`)
+			leaf = append(append(append(leaf[:12:12], u24(len(data))...), data...), 0, 0)
+		}
+		return leaf, extra, "edge:entry-type "
+	case 11:
+		leaf[0] = []byte{1, 255}[t.Intn(2)]
+		return leaf, extra, "edge:version "
+	case 12:
+		leaf[1] = []byte{1, 255}[t.Intn(2)]
+		return leaf, extra, "edge:leaf-type "
+	default: // one byte short of / beyond the exact length
+		if t.Chance(1, 2) {
+			return leaf[:len(leaf)-1], extra, "edge:leaf-minus-1 "
+		}
+		return leaf, extra[:len(extra)-1], "edge:extra-minus-1 "
 	}
 }
